@@ -111,7 +111,7 @@ extern "C" void h_c20_pow_gate(unsigned long k) {
     const std::uint8_t cooldown = nondet_u8("cooldown_s") & 15; n->config_.handshake_cooldown = std::chrono::seconds(cooldown);
     verif_env::start_clock();
     if (k == 0) k = 1;
-    if (k > 1) verif_assume(difficulty == 8);      // histories: three representative difficulties (the full range is the one-handshake job)
+    if (k > 1) verif_assume(difficulty == 0 || difficulty == 8);      // histories (not registered: two handshakes with the PoW gate exceed the budget)      // histories: three representative difficulties (the full range is the one-handshake job)
     for (unsigned long i = 0; i < k; ++i) {
         if (i) verif_env::advance_clock();
         const std::uint32_t pub = nondet_u32("offered_public"); const std::uint64_t nonce = nondet_u64("nonce");
